@@ -110,6 +110,8 @@ def run(prog, chk):
     absorbed_obligations(prog, chk, "C19.absorbed")
     chk.rule("C19.borrow", "no borrowed object is stored into an owning field without taking a reference", floor=150)
     borrow_obligations(prog, chk, "C19.borrow")
+    chk.rule("C19.store", "template parser store step: list ownership on every outcome of its indirect calls", floor=10)
+    store_value_table(prog, chk, "C19.store")
     chk.rule("C19.list", "list growth: capacity, array and length change together or, when the allocation fails, not at all", floor=7)
     list_growth_table(prog, chk, "C19.list")
 
@@ -194,3 +196,72 @@ def list_growth_table(prog, chk, rule):
             want = "object stored at index %d, length %d, capacity and array untouched" % (ln_, ln_ + 1)
         chk.ob(rule, inst, ok, "expected %s; source: status %s, capacity stores %s, array stores %s, length stores %s, element stores %s, released %s"
                % (want + " (allocated count %s)" % counts, q.ret if not isinstance(q.ret, int) else hex(q.ret), st["I->arr_size"], st["I->arr"], st["I->arr_len"], elem[-2:], frees), loc=fn.loc(), fn=fn)
+
+
+def store_value_table(prog, chk, rule):
+    """storeObjectValue (the template parser's store step) over list present/absent and the outcomes of its four indirect calls: a list
+    that the payload object already points to is never released here, a new list that was not attached is released exactly once."""
+    import itertools
+    from ksirules.interp import TOP, Interp, Ptr, succeed_model
+    from ksirules.model import lvalue_key, strip
+    fn = prog.fn("storeObjectValue", "tlv_template.c")
+    cp, tp, pp, vp = [p["n"] for p in fn.params]
+    OOM = prog.const("KSI_OUT_OF_MEMORY")
+    for has_list, new_ok, app_ok, set_ok in itertools.product((0, 1), (0, 1), (0, 1), (0, 1)):
+        if has_list and not new_ok:
+            continue
+        ev = []
+        attached = {"v": Ptr("OLDLIST") if has_list else 0}
+
+        def fallback(I, p, node, name, args, cv):
+            f = strip(node.get("f")) if node.get("f") is not None else None
+            fld = f.get("f") if isinstance(f, dict) and f.get("k") == "mem" else None
+            if fld == "getValue":
+                I.write(p, lvalue_key(strip(node["a"][1])["e"], I.fn), attached["v"])
+                return 0
+            if fld == "listNew":
+                ev.append(("new",))
+                if new_ok:
+                    I.write(p, lvalue_key(strip(node["a"][0])["e"], I.fn), Ptr("NEWLIST"))
+                    return 0
+                return OOM
+            if fld == "listAppend":
+                ev.append(("append", args[0]))
+                return 0 if app_ok else OOM
+            if fld == "setValue":
+                ev.append(("set", args[1]))
+                if set_ok:
+                    attached["v"] = args[1]
+                    return 0
+                return OOM
+            if fld == "listFree":
+                ev.append(("free", args[0]))
+                return TOP
+            return TOP
+        inputs = {cp: Ptr("ctx"), tp: Ptr("TM"), pp: Ptr("PAYLOAD"), vp: Ptr("VAL"), "TM->setValue": Ptr("fn:set"), "TM->getValue": Ptr("fn:get"),
+                  "TM->listAppend": Ptr("fn:app"), "TM->listNew": Ptr("fn:new"), "TM->listFree": Ptr("fn:free")}
+        I = Interp(fn, inputs=inputs, call_model=succeed_model(prog, {}, fallback), on_unknown="stop", prog=prog)
+        paths = I.run()
+        chk.paths += len(paths)
+        inst = "storeObjectValue[list %s,listNew %s,append %s,setValue %s]" % ("exists" if has_list else "absent", "ok" if new_ok else "fails",
+                                                                               "ok" if app_ok else "fails", "ok" if set_ok else "fails")
+        if len(paths) != 1 or paths[0].undetermined:
+            raise AnalysisBroken("storeObjectValue: evaluation not determined for %s: %s" % (inst, [q.undetermined[:1] for q in paths]))
+        q = paths[0]
+        freed = [e[1] for e in ev if e[0] == "free" and e[1] != 0]
+        problems = []
+        for f in freed:
+            if f == attached["v"]:
+                problems.append("releases %s although the payload object points to it (double free when the payload is destroyed)" % f)
+            if f == Ptr("OLDLIST"):
+                problems.append("releases the payload's existing list")
+        created = ("new",) in ev and new_ok
+        if created and attached["v"] != Ptr("NEWLIST") and freed.count(Ptr("NEWLIST")) != 1:
+            problems.append("the new list is neither attached to the payload nor released exactly once (released %d times)" % freed.count(Ptr("NEWLIST")))
+        ok_all = (has_list or new_ok) and app_ok and set_ok
+        if ok_all and (q.ret != 0 or attached["v"] == 0 or not any(e[0] == "append" and e[1] == attached["v"] for e in ev)):
+            problems.append("success path does not append the value to the list the payload holds (status %s)" % q.ret)
+        if not ok_all and q.ret in (0, None):
+            problems.append("a failed step is reported as success")
+        chk.ob(rule, inst, not problems, "; ".join(problems) if problems else "events %s, payload list afterwards %s, status %s"
+               % ([(e[0],) + tuple(str(x) for x in e[1:]) for e in ev], attached["v"], hex(q.ret) if isinstance(q.ret, int) else q.ret), loc=fn.loc(), fn=fn)
